@@ -28,6 +28,10 @@ def enc_num(x, mode: str):
     """Encode a Python number for the given driver mode."""
     if mode == "float":
         return float_bits(float(x))
+    if mode.startswith("jet"):
+        if isinstance(x, (list, tuple)):
+            return [enc_rat(c) for c in x]
+        return enc_rat(x)
     if mode in ("gauss", "dual"):
         if isinstance(x, tuple):
             return [enc_rat(x[0]), enc_rat(x[1])]
@@ -50,6 +54,8 @@ def enc_rat(x) -> str:
 def dec_num(s: str, mode: str):
     if mode == "float":
         return bits_float(int(s))
+    if mode.startswith("jet"):
+        return [Fraction(c) for c in s.split(",")]
     if mode == "gauss":
         a, b = s.split(",")
         return (Fraction(a), Fraction(b))
